@@ -154,6 +154,8 @@ var jsSeeds = []string{
 	"x = y ? 'a' : \"b\"", "a.b.c[d](e, f)(g)", "new Foo(1, 2).bar", "var o = {a: 1, 'b': [1, 2, 3], c: {d: null}}", "/ab+c/gi.test(s)", "x = a / b / c", "`tpl ${x} ${y + 1}`",
 	"label: for (;;) { break label }", "typeof x === 'undefined' && void 0", "a = b = c += 1", "x = -y + +z - ~w", "!a || b && c", "throw new Error('x')", "var f = function(a, b) { return a + b }",
 	"(function() { return this })()", "a, b, c", "x = 0x1F + 1e3 + .5 + 5.", "s = 'it\\'s' + \"q\\\"q\" + '\\u0041\\x41\\n'", "delete a.b; a instanceof B; 'k' in o", "// comment\nx /* c */ = 1",
+	"/(?/", "/ab(?/g", "/a((?/", "/(?=x)y/", "/(?!x)/.test(s)", "/[/", "/(/", "/\\//", "/[a-z]+(?:b|c)*/i", "x = a ? 1 : b ? 2 : 3", "a ? x : y = 1", "a ? b ? 1 : 2 : 3", "x = `abc", "f(`a\\`",
+	"a == b == c", "a != b === c !== d", "a < b < c", "a / b / c % d * e", "a - b - c + d",
 	"return 1", "a ? b : c ? d : e", "i++ + ++i", "a\n++\nb", "x = {get a() { return 1 }, set a(v) {}}", "debugger;", "with (o) { p }", "a = [,,1,,]", "1 + 'a'", "this.x = arguments[0]",
 }
 
